@@ -29,7 +29,7 @@ def main():
             src = 'catalogue'
         for pid, c in sorted(r['checks'].items()):
             sig = ', '.join('`%s`' % s.replace('|', '\\|')[:80] for s in c.get('signatures', [])[:2])
-            rows.append('| %s | %s | %s | %s | %s | %s |' % (name, src, pid + ' (' + c.get('tier', 'quick') + ')', 'caught' if c['caught'] else '**MISSED**', sig, what[:160].replace('|', '\\|')))
+            rows.append('| %s | %s | %s | %s | %s | %s |' % (name, src, pid + ' (' + c.get('tier', 'quick') + ')', 'caught' if c['caught'] else ('not judged (outside the property as stated)' if c.get('judged') is False else '**MISSED**'), sig, what[:160].replace('|', '\\|')))
     caught = sum(1 for r in res.values() for c in r['checks'].values() if c['caught'])
     total = sum(len(r['checks']) for r in res.values())
     table = ['| change | source | check run | result | first signatures | what the change is / needs |', '|---|---|---|---|---|---|'] + rows
